@@ -146,6 +146,7 @@ type Case struct {
 	Prior             []PriorReq `json:",omitempty"` // requests served by the same app (pooled ctx) before the main one
 	Override          []string   `json:",omitempty"` // built-in constraint names under which the app registered a custom constraint of its own
 	Fillers           int        `json:",omitempty"` // mounted: the sub-app first registers this many other custom constraints and a route that uses one of them; the root app has a custom constraint of its own
+	Decoy             bool       `json:",omitempty"` // a near-twin of the pattern (constraint data in the other letter case) is registered directly in front of it, with a handler that calls Next
 	Mounted           bool       `json:",omitempty"` // the pattern and the custom constraints are registered on a sub-app that is mounted at "/" of a plain root app
 }
 
@@ -194,6 +195,31 @@ func (evenC) Execute(param string, _ ...string) bool {
 type evenCapC struct{ evenC }
 
 func (evenCapC) Name() string { return "isEven" }
+
+// swapConstraintCase returns the pattern with the letters inside the parentheses of its constraints in the other case.
+func swapConstraintCase(p string) string {
+	b := []byte(p)
+	inCons, inArgs := false, false
+	for i := 0; i < len(b); i++ {
+		switch ch := b[i]; {
+		case ch == '\\':
+			i++
+		case ch == '<' && !inArgs:
+			inCons = true
+		case ch == '>' && !inArgs:
+			inCons = false
+		case ch == '(' && inCons:
+			inArgs = true
+		case ch == ')' && inArgs:
+			inArgs = false
+		case inArgs && ch >= 'a' && ch <= 'z':
+			b[i] = ch - 32
+		case inArgs && ch >= 'A' && ch <= 'Z':
+			b[i] = ch + 32
+		}
+	}
+	return string(b)
+}
 
 func wireEsc(p string) string {
 	return strings.NewReplacer("%", "%25", "?", "%3F", "#", "%23", " ", "%20").Replace(p)
@@ -283,6 +309,19 @@ func check(c Case) vk.Verdict {
 				hit = -1
 			}
 		}()
+		if dp := swapConstraintCase(c.Pattern); c.Decoy && dp != c.Pattern {
+			// directly in front of the pattern, its near-twin: the same text except for the letter case of the constraint
+			// data (which is case-sensitive whatever the routing configuration says); its handler passes on
+			func() {
+				defer func() { _ = recover() }() // (a twin that is not a valid pattern is simply not there)
+				pass := func(ctx fiber.Ctx) error { return ctx.Next() }
+				if c.Use {
+					app.Use(dp, pass)
+				} else {
+					app.Get(dp, pass)
+				}
+			}()
+		}
 		if c.Use {
 			app.Use(c.Pattern, h)
 		} else {
@@ -547,6 +586,7 @@ func genCase(t *rapid.T) Case {
 	if rapid.IntRange(0, 3).Draw(t, "override") == 0 {
 		c.Override = rapid.SliceOfNDistinct(rapid.SampledFrom([]string{"int", "bool", "alpha"}), 1, 2, rapid.ID[string]).Draw(t, "overridden")
 	}
+	c.Decoy = rapid.IntRange(0, 2).Draw(t, "decoy") == 0
 	c.Mounted = rapid.IntRange(0, 4).Draw(t, "mounted") == 0
 	if c.Mounted {
 		c.Fillers = rapid.SampledFrom([]int{0, 0, 1, 2, 3, 5, 6}).Draw(t, "fillers")
